@@ -36,6 +36,14 @@ def main():
     prop = a.prop
     tier = a.tier if a.tier in ("quick", "thorough") else "quick"
     seed = int(os.environ.get("VERIF_SEED", "1") or "1")
+    if a.replay:
+        # a replay file names the seed and tier of the run that produced it: the same generated inputs are run again
+        try:
+            rp = json.load(open(a.replay))
+            seed = int(rp.get("seed", seed))
+            tier = rp.get("tier", tier) if rp.get("tier") in ("quick", "thorough") else tier
+        except (OSError, ValueError) as e:
+            print("cannot read replay file %s: %s" % (a.replay, e), file=sys.stderr)
     t0 = time.time()
     mod = importlib.import_module("checks." + prop)
     META = mod.META
